@@ -493,7 +493,7 @@ func decryptInputUntouched(c *an.Check) {
 					var dst []ssa.Value
 					if bi, ok := cc.Value.(*ssa.Builtin); ok && bi.Name() == "copy" {
 						dst = append(dst, cc.Args[0])
-					} else if cc.IsInvoke() && (cc.Method.Name() == "Decrypt" || cc.Method.Name() == "Encrypt" || cc.Method.Name() == "XORKeyStream") {
+					} else if cc.IsInvoke() && (cc.Method.Name() == "Decrypt" || cc.Method.Name() == "Encrypt" || cc.Method.Name() == "XORKeyStream" || cc.Method.Name() == "Open" || cc.Method.Name() == "Seal") {
 						dst = append(dst, cc.Args[0])
 					} else if fo := an.CallObj(cc); fo != nil && fo.Name() == "Scrub" && len(cc.Args) > 0 {
 						dst = append(dst, cc.Args[0])
